@@ -159,6 +159,15 @@ fn drive<M: Monitor>(m: &M, a: &Args) -> i32 {
         let txt = std::fs::read_to_string(path).expect("read replay file");
         let v: Value = serde_json::from_str(&txt).expect("replay json");
         let case = v.get("case").cloned().unwrap_or(v.clone());
+        if case.is_null() && v.get("case_seed").and_then(|x| x.as_u64()) == Some(0) {
+            // a violation of the fixed (not seed-driven) part of the check: run that part again
+            let mut rep = Report::default();
+            let mut ctx = rvmon::report::Ctx { rep: &mut rep, case_seed: 0, tier: a.tier, pending: vec![], verbose: true };
+            m.fixed(a.tier, 0, 1, &mut ctx);
+            let n = ctx.pending.len();
+            println!("replay (fixed part): {n} violation(s)");
+            return if n == 0 { 0 } else { 1 };
+        }
         if case.is_null() {
             if let Some(cs) = v.get("case_seed").and_then(|x| x.as_u64()) {
                 let rep = campaign::run_seed(m, a.tier, cs, a.index);
